@@ -127,15 +127,15 @@ Qed.
 
 (* ---------- add_known_address: what is accepted ---------- *)
 
-Definition acceptable (c : cfg) (p : N) (a : maddr) : Prop :=
-  supported c a = true /\ is_local c a = false /\ last a (Other 0) = P2p p.
+Definition acceptable (c : cfg) (ls : list maddr) (p : N) (a : maddr) : Prop :=
+  supported c a = true /\ is_local c ls a = false /\ last a (Other 0) = P2p p.
 
-Lemma normalise_acceptable c peer a a' :
-  normalise c peer a = Some a' -> a' = a /\ acceptable c peer a.
+Lemma normalise_acceptable c ls peer a a' :
+  normalise c ls peer a = Some a' -> a' = a /\ acceptable c ls peer a.
 Proof.
   unfold normalise, acceptable.
   destruct (supported c a) eqn:Hs; cbn [negb]; [|discriminate].
-  destruct (is_local c a) eqn:Hl; [discriminate|].
+  destruct (is_local c ls a) eqn:Hl; [discriminate|].
   destruct (supported_dialable _ _ Hs) as [q [Hlast _]].
   rewrite Hlast. destruct (N.eqb q peer) eqn:E; [|discriminate].
   intros [= <-]. apply N.eqb_eq in E. subst q. repeat split; assumption.
@@ -168,12 +168,40 @@ Proof.
   apply existsb_maddr in H. rewrite H in E. discriminate.
 Qed.
 
-Lemma accepted_acceptable c peer l a :
-  In a (accepted c peer l) -> In a l /\ acceptable c peer a.
+Lemma accepted_acceptable c ls peer l a :
+  In a (accepted c ls peer l) -> In a l /\ acceptable c ls peer a.
 Proof.
   unfold accepted. rewrite dedup_in. intro H.
   destruct (filter_map_in _ _ _ H) as [x [Hin Hn]].
-  destruct (normalise_acceptable _ _ _ _ Hn) as [-> Ha]. split; assumption.
+  destruct (normalise_acceptable _ _ _ _ _ Hn) as [-> Ha]. split; assumption.
+Qed.
+
+Lemma accepted_nodup c ls peer l : NoDup (accepted c ls peer l).
+Proof. apply dedup_nodup. Qed.
+
+(* registering more listen addresses only makes more addresses local *)
+Lemma existsb_incl {A} (f : A -> bool) l1 l2 :
+  incl l1 l2 -> existsb f l2 = false -> existsb f l1 = false.
+Proof.
+  intros Hi H. destruct (existsb f l1) eqn:E; [|reflexivity].
+  apply existsb_exists in E. destruct E as [x [Hx Hf]].
+  assert (existsb f l2 = true) by (apply existsb_exists; exists x; split; [apply Hi; exact Hx | exact Hf]).
+  congruence.
+Qed.
+
+Lemma listen_set_incl c l1 l2 : incl l1 l2 -> incl (listen_set c l1) (listen_set c l2).
+Proof.
+  intros Hi x Hx. unfold listen_set in *. apply in_flat_map in Hx. destruct Hx as [l [Hl Hx]].
+  apply in_flat_map. exists l. split; [apply Hi; exact Hl | exact Hx].
+Qed.
+
+Lemma is_local_mono c l1 l2 a : incl l1 l2 -> is_local c l2 a = false -> is_local c l1 a = false.
+Proof.
+  intros Hi. unfold is_local. pose proof (listen_set_incl c _ _ Hi) as Hs.
+  destruct (existsb (maddr_eqb (strip_p2p a)) (listen_set c l2)) eqn:E2; [discriminate|].
+  rewrite (existsb_incl _ _ _ Hs E2).
+  destruct (extract_ip_port (strip_p2p a)) as [[ip port]|]; [|reflexivity].
+  intro H. exact (existsb_incl _ _ _ Hs H).
 Qed.
 
 (* ---------- the store ---------- *)
@@ -613,14 +641,95 @@ Proof.
       * exact IH.
 Qed.
 
+Lemma with_peer_last p a q : last a (Other 0) = P2p q -> with_peer p a = a.
+Proof. intro H. unfold with_peer. rewrite H. reflexivity. Qed.
+
+Lemma mem_in a s : mem a s = true <-> In a (keys s).
+Proof.
+  unfold mem. destruct (find a s) eqn:E.
+  - split; [intros _|reflexivity]. apply find_some_in in E.
+    change a with (fst (a, z)). apply in_map. exact E.
+  - split; [discriminate|]. intro H. apply find_none_notin in E. contradiction.
+Qed.
+
+(* an insert on a known address keeps the key set *)
+Lemma insert_known_keys k s a sc v :
+  In a (keys s) -> keys (fst (insert k s a sc v)) = keys s.
+Proof.
+  intro H. unfold insert. destruct (find a s) eqn:E.
+  - destruct (sc =? 0); cbn [fst]; [reflexivity | apply set_score_keys].
+  - apply find_none_notin in E. contradiction.
+Qed.
+
+Section InsertKnown.
+  Variable P : maddr -> Prop.
+
+  Lemma insert_known_inv k s a sc v :
+    In a (keys s) -> SInv P k s -> SInv P k (fst (insert k s a sc v)).
+  Proof.
+    intros H [Hb Hn Ha]. unfold insert. destruct (find a s) eqn:E.
+    - destruct (sc =? 0); cbn [fst]; [split; assumption|].
+      split; [rewrite set_score_length; exact Hb | rewrite set_score_keys; exact Hn
+             | apply forall_set_score; exact Ha].
+    - apply find_none_notin in E. contradiction.
+  Qed.
+
+  Lemma fail_all_inv k s l :
+    (forall a, In a l -> In a (keys s)) -> SInv P k s ->
+    SInv P k (fail_all k s l) /\ keys (fail_all k s l) = keys s.
+  Proof.
+    revert s. induction l as [|a t IH]; intros s Hl Hs; cbn [fail_all]; [split; [exact Hs | reflexivity]|].
+    assert (Ha : In a (keys s)) by (apply Hl; now left).
+    pose proof (insert_known_keys k s a (sc_failure k) None Ha) as Hk.
+    destruct (IH (fst (insert k s a (sc_failure k) None))) as [H1 H2].
+    - intros b Hb. rewrite Hk. apply Hl. now right.
+    - apply insert_known_inv; assumption.
+    - split; [exact H1 | rewrite H2; exact Hk].
+  Qed.
+
+  Lemma succeed_at_inv k s peer l j :
+    (forall a, In a l -> In a (keys s) /\ names peer a = true) -> SInv P k s ->
+    SInv P k (succeed_at k s peer l j).
+  Proof.
+    intros Hl Hs. unfold succeed_at.
+    destruct (fail_all_inv k s (firstn j l)) as [H1 Hk]; [|exact Hs|].
+    { intros a Ha. apply Hl. rewrite <- (firstn_skipn j l). apply in_or_app. now left. }
+    destruct (nth_error l j) as [a|] eqn:E; [|exact H1].
+    apply nth_error_In in E. destruct (Hl _ E) as [Hin Hn].
+    assert (Hw : with_peer peer a = a).
+    { unfold names in Hn. destruct (last a (Other 0)) eqn:El; try discriminate.
+      exact (with_peer_last _ _ _ El). }
+    rewrite Hw. apply insert_known_inv.
+    - rewrite insert_known_keys; rewrite Hk; exact Hin.
+    - apply insert_known_inv; [rewrite Hk; exact Hin | exact H1].
+  Qed.
+
+  Lemma dial_outcome_inv k s peer outcome tcp ws :
+    (forall a, In a (tcp ++ ws) -> In a (keys s) /\ names peer a = true) -> SInv P k s ->
+    SInv P k (dial_outcome k s peer outcome tcp ws).
+  Proof.
+    intros Hl Hs. unfold dial_outcome. destruct outcome as [|j0].
+    - destruct (fail_all_inv k s tcp) as [H1 Hk]; [|exact Hs|].
+      { intros a Ha. apply Hl. apply in_or_app. now left. }
+      destruct (fail_all_inv k (fail_all k s tcp) ws) as [H2 _]; [|exact H1|exact H2].
+      intros a Ha. rewrite Hk. apply Hl. apply in_or_app. now right.
+    - destruct (j0 mod (length tcp + length ws) <? length tcp)%nat.
+      + apply succeed_at_inv; [|exact Hs]. intros a Ha. apply Hl. apply in_or_app. now left.
+      + apply succeed_at_inv; [|exact Hs]. intros a Ha. apply Hl. apply in_or_app. now right.
+  Qed.
+End InsertKnown.
+
 Section BookInv.
   Variable c : cfg.
   Variable k : scorecfg.
+  (* L0: listen addresses registered before the history starts *)
+  Variable L0 : list maddr.
   (* P p a: address a may be stored for peer p *)
   Variable P : N -> maddr -> Prop.
-  Hypothesis P_add : forall p a, acceptable c p a -> P p a.
+  Hypothesis P_add : forall ls p a, incl L0 ls -> acceptable c ls p a -> P p a.
 
   Definition BInv (b : book) : Prop := forall p s, get p b = Some s -> SInv (P p) k s.
+  Definition StInv (st : state) : Prop := incl L0 (lst st) /\ BInv (bk st).
 
   (* what the environment may feed into the dial-result operations *)
   Definition op_wf (o : op) : Prop :=
@@ -658,75 +767,119 @@ Section BookInv.
     destruct (insert_all k s1 t victims') as [s2 bad]. exact IH.
   Qed.
 
-  Lemma with_peer_last p a q : last a (Other 0) = P2p q -> with_peer p a = a.
-  Proof. intro H. unfold with_peer. rewrite H. reflexivity. Qed.
-
-  Lemma step_inv b o : BInv b -> op_wf o -> BInv (fst (step c k b o)).
+  Lemma same_set_incl order acc a : same_set order acc = true -> In a order -> In a acc.
   Proof.
-    intros Hb Hwf. destruct o as [peer addrs victims | a f victim | peer a listener victim
-                                 | peer limit obs | a]; cbn [step].
-    - destruct ((2 <=? length addrs)%nat && (cap k <? length (get_or_empty peer b) + length addrs)%nat);
-        [exact Hb|].
-      pose proof (insert_all_inv peer (get_or_empty peer b) (accepted c peer addrs) victims
-                    (binv_get_or_empty b peer Hb)) as H.
-      destruct (insert_all k (get_or_empty peer b) (accepted c peer addrs) victims) as [s' bad].
-      cbn [fst] in *. apply binv_put; [exact Hb|]. apply H.
-      apply Forall_forall. intros x Hx. apply P_add. exact (proj2 (accepted_acceptable _ _ _ _ Hx)).
-    - destruct (last a (Other 0)) eqn:Hl; try exact Hb.
-      cbn [op_wf] in Hwf. specialize (Hwf _ Hl).
-      rewrite (with_peer_last p a p Hl).
-      pose proof (insert_inv (P p) k (get_or_empty p b) a (failure_score k f) victim
-                    (binv_get_or_empty b p Hb) Hwf) as H.
-      destruct (insert k (get_or_empty p b) a (failure_score k f) victim) as [s' r].
-      cbn [fst] in *. apply binv_put; assumption.
-    - destruct listener; [exact Hb|]. cbn [op_wf] in Hwf.
-      pose proof (insert_inv (P peer) k (get_or_empty peer b) (with_peer peer a) (sc_established k)
-                    victim (binv_get_or_empty b peer Hb) Hwf) as H.
-      destruct (insert k (get_or_empty peer b) (with_peer peer a) (sc_established k) victim) as [s' r].
-      cbn [fst] in *. apply binv_put; assumption.
-    - exact Hb.
-    - exact Hb.
+    unfold same_set. intros H Hin. apply andb_true_iff in H. destruct H as [_ H].
+    rewrite forallb_forall in H. apply existsb_maddr. exact (H _ Hin).
   Qed.
 
-  Lemma run_inv h b : BInv b -> Forall op_wf h -> BInv (fst (run c k b h)).
+  Lemma step_inv st o : StInv st -> op_wf o -> StInv (fst (step c k st o)).
   Proof.
-    revert b. induction h as [|o t IH]; intros b Hb Hw; cbn [run]; [exact Hb|].
+    intros [Hl Hb] Hwf.
+    destruct o as [peer addrs order victims | a f victim | peer a listener victim
+                  | peer limit obs | a | a | n | peer outcome tcp ws]; cbn [step].
+    - destruct (same_set order (accepted c (lst st) peer addrs)) eqn:Hss; [|split; assumption].
+      pose proof (insert_all_inv peer (get_or_empty peer (bk st)) order victims
+                    (binv_get_or_empty (bk st) peer Hb)) as H.
+      destruct (insert_all k (get_or_empty peer (bk st)) order victims) as [s' bad].
+      cbn [fst set_bk lst bk] in *. split; [exact Hl|]. apply binv_put; [exact Hb|]. apply H.
+      apply Forall_forall. intros x Hx. apply (P_add (lst st)); [exact Hl|].
+      exact (proj2 (accepted_acceptable _ _ _ _ _ (same_set_incl _ _ _ Hss Hx))).
+    - destruct (last a (Other 0)) eqn:Hla; try (split; assumption).
+      cbn [op_wf] in Hwf. specialize (Hwf _ Hla).
+      rewrite (with_peer_last p a p Hla).
+      pose proof (insert_inv (P p) k (get_or_empty p (bk st)) a (failure_score k f) victim
+                    (binv_get_or_empty (bk st) p Hb) Hwf) as H.
+      destruct (insert k (get_or_empty p (bk st)) a (failure_score k f) victim) as [s' r].
+      cbn [fst set_bk lst bk] in *. split; [exact Hl|]. apply binv_put; assumption.
+    - destruct listener; [split; assumption|]. cbn [op_wf] in Hwf.
+      pose proof (insert_inv (P peer) k (get_or_empty peer (bk st)) (with_peer peer a)
+                    (sc_established k) victim (binv_get_or_empty (bk st) peer Hb) Hwf) as H.
+      destruct (insert k (get_or_empty peer (bk st)) (with_peer peer a) (sc_established k) victim)
+        as [s' r].
+      cbn [fst set_bk lst bk] in *. split; [exact Hl|]. apply binv_put; assumption.
+    - split; assumption.
+    - split; assumption.
+    - cbn [fst lst bk]. split; [|exact Hb]. intros x Hx. apply in_or_app. left. exact (Hl _ Hx).
+    - destruct (en_tcp c || feat_ws c && en_ws c); cbn [fst lst bk]; split; assumption.
+    - set (s := get_or_empty peer (bk st)).
+      destruct (existsb (fun x => negb (enabled c (route c (fst x)) && names peer (fst x))) s) eqn:Hg;
+        [split; assumption|].
+      destruct (free_capacity c st (length s)) as [limit|]; [|split; assumption].
+      destruct (N.eqb peer (local_peer c)); [split; assumption|].
+      destruct s as [|x0 s0] eqn:Hs; [split; assumption|]. rewrite <- Hs in *.
+      destruct (forallb (fun a => mem a s) (tcp ++ ws)) eqn:Hm; cbn [andb]; [|split; assumption].
+      destruct (forallb (fun a => match route c a with TTcp => true | _ => false end) tcp &&
+                forallb (fun a => match route c a with TWs => true | _ => false end) ws &&
+                addresses_ok limit s (merge_desc (with_scores s tcp) (with_scores s ws)));
+        [|split; assumption].
+      cbn [fst set_bk lst bk]. split; [exact Hl|]. apply binv_put; [exact Hb|].
+      apply dial_outcome_inv; [|exact (binv_get_or_empty (bk st) peer Hb)].
+      intros a Ha. rewrite forallb_forall in Hm. specialize (Hm _ Ha). apply mem_in in Hm.
+      split; [exact Hm|].
+      apply in_map_iff in Hm. destruct Hm as [x [Hx1 Hx2]].
+      destruct (names peer a) eqn:Hn; [reflexivity|].
+      assert (existsb (fun x => negb (enabled c (route c (fst x)) && names peer (fst x))) s = true).
+      { apply existsb_exists. exists x. split; [exact Hx2|]. rewrite Hx1, Hn, andb_false_r. reflexivity. }
+      congruence.
+  Qed.
+
+  Lemma run_inv h st : StInv st -> Forall op_wf h -> StInv (fst (run c k st h)).
+  Proof.
+    revert st. induction h as [|o t IH]; intros st Hs Hw; cbn [run]; [exact Hs|].
     inversion Hw as [|? ? Ho Ht]; subst.
-    pose proof (step_inv b o Hb Ho) as H1.
-    destruct (step c k b o) as [b1 r]. cbn [fst] in H1.
-    specialize (IH b1 H1 Ht). destruct (run c k b1 t) as [b2 rs]. exact IH.
+    pose proof (step_inv st o Hs Ho) as H1.
+    destruct (step c k st o) as [st1 r]. cbn [fst] in H1.
+    specialize (IH st1 H1 Ht). destruct (run c k st1 t) as [st2 rs]. exact IH.
   Qed.
 
-  Lemma final_inv h : Forall op_wf h -> BInv (final c k h).
-  Proof. intro H. apply run_inv; [|exact H]. intros p s. cbn [get]. discriminate. Qed.
+  Lemma stinv_start : StInv (mkState [] L0 0).
+  Proof. split; [apply incl_refl|]. intros p s. cbn [bk get]. discriminate. Qed.
 End BookInv.
 
 (* bound and key uniqueness need no assumption on the environment *)
 Lemma op_wf_true o : op_wf (fun _ _ => True) o.
-Proof. destruct o as [| | ? ? [|] ?| |]; cbn; auto. Qed.
+Proof. destruct o as [| | ? ? [|] ?| | | | |]; cbn; auto. Qed.
 
 Lemma final_bound c k h p s :
-  get p (final c k h) = Some s -> (length s <= cap k)%nat /\ NoDup (keys s).
+  get p (bk (final c k h)) = Some s -> (length s <= cap k)%nat /\ NoDup (keys s).
 Proof.
   intro H.
-  assert (Hi : BInv k (fun _ _ => True) (final c k h)).
-  { apply final_inv; [auto|]. apply Forall_forall. intros o _. apply op_wf_true. }
-  destruct (Hi _ _ H) as [Hb Hn _]. split; assumption.
+  assert (Hi : StInv k [] (fun _ _ => True) (final c k h)).
+  { apply run_inv; [auto | apply (stinv_start k []) |].
+    apply Forall_forall. intros o _. apply op_wf_true. }
+  destruct Hi as [_ Hi]. destruct (Hi _ _ H) as [Hb Hn _]. split; assumption.
 Qed.
 
-(* attribution, locality and dialability of everything remembered, provided the dial results
-   reported by the transports are about addresses that were acceptable for that peer *)
-Lemma final_acceptable c k h p s a z :
-  Forall (op_wf (acceptable c)) h ->
-  get p (final c k h) = Some s -> In (a, z) s ->
-  acceptable c p a /\ dialable c a p.
+(* attribution, locality and dialability of everything remembered: if the node registered the
+   listen addresses L0 first and the dial results reported by the transports are about addresses
+   acceptable for that peer, then whatever happens afterwards (including further listen
+   addresses) every remembered address names its peer, is supported, dialable, and is not local
+   with respect to L0 *)
+Lemma run_acceptable c k L0 h p s a z :
+  Forall (op_wf (acceptable c L0)) h ->
+  get p (bk (fst (run c k (mkState [] L0 0) h))) = Some s -> In (a, z) s ->
+  acceptable c L0 p a /\ dialable c a p.
 Proof.
   intros Hw Hg Hin.
-  assert (Hi : BInv k (acceptable c) (final c k h)) by (apply final_inv; auto).
-  destruct (Hi _ _ Hg) as [_ _ Ha]. rewrite Forall_forall in Ha.
+  assert (Hi : StInv k L0 (acceptable c L0) (fst (run c k (mkState [] L0 0) h))).
+  { apply (run_inv c k L0); [|apply stinv_start|exact Hw].
+    intros ls q b Hincl [H1 [H2 H3]]. repeat split; [exact H1 | | exact H3].
+    exact (is_local_mono _ _ _ _ Hincl H2). }
+  destruct Hi as [_ Hi]. destruct (Hi _ _ Hg) as [_ _ Ha]. rewrite Forall_forall in Ha.
   specialize (Ha _ Hin). cbn [fst] in Ha. split; [exact Ha|].
   destruct Ha as [Hs [_ Hl]]. destruct (supported_dialable _ _ Hs) as [q [Hq Hd]].
   rewrite Hl in Hq. injection Hq as <-. exact Hd.
+Qed.
+
+(* the invariant is inductive from any state *)
+Lemma step_acceptable c k L0 st o :
+  StInv k L0 (acceptable c L0) st -> op_wf (acceptable c L0) o ->
+  StInv k L0 (acceptable c L0) (fst (step c k st o)).
+Proof.
+  apply (step_inv c k L0).
+  intros ls q b Hincl [H1 [H2 H3]]. repeat split; [exact H1 | | exact H3].
+  exact (is_local_mono _ _ _ _ Hincl H2).
 Qed.
 
 (* add_known_address on addresses that are all known already changes nothing *)
@@ -740,7 +893,7 @@ Proof.
 Qed.
 
 Lemma final_bound_default c h p s :
-  get p (final c default_scores h) = Some s ->
+  get p (bk (final c default_scores h)) = Some s ->
   (N.of_nat (length s) <= Consts.MAX_ADDRESSES)%N.
 Proof.
   intro H. destruct (final_bound _ _ _ _ _ H) as [Hb _]. cbn [cap default_scores] in Hb. lia.
@@ -845,4 +998,162 @@ Proof.
     { intro Hc. assert (Hk : In (fst y) (map fst (addresses limit s))) by (apply in_map; exact Hc).
       apply existsb_maddr in Hk. rewrite Hk in E. discriminate. }
     specialize (Htop x y Hx Hy Hny). lia.
+Qed.
+
+(* ---------- dial(peer): what is tried and how the outcome is recorded ---------- *)
+
+Lemma merge_desc_perm l1 l2 : Permutation (merge_desc l1 l2) (l1 ++ l2).
+Proof.
+  revert l2. induction l1 as [|x t1 IH]; intro l2.
+  - destruct l2; apply Permutation_refl.
+  - induction l2 as [|y t2 IH2].
+    + cbn [merge_desc]. rewrite app_nil_r. apply Permutation_refl.
+    + cbn [merge_desc]. destruct (snd x <? snd y).
+      * eapply Permutation_trans; [apply perm_skip; exact IH2|].
+        apply (Permutation_middle (x :: t1) t2 y).
+      * cbn [app]. apply perm_skip. apply IH.
+Qed.
+
+Lemma in_keys_find a s : In a (keys s) -> exists z, find a s = Some z.
+Proof.
+  intro H. destruct (find a s) as [z|] eqn:E; [exists z; reflexivity|].
+  apply find_none_notin in E. contradiction.
+Qed.
+
+Lemma fail_all_find k s l b :
+  NoDup (keys s) -> (forall a, In a l -> In a (keys s)) -> sc_failure k <> 0 ->
+  find b (fail_all k s l) =
+    if existsb (maddr_eqb b) l then Some (sc_failure k) else find b s.
+Proof.
+  intros Hnd Hl Hf. revert s Hnd Hl. induction l as [|a t IH]; intros s Hnd Hl; cbn [fail_all existsb];
+    [reflexivity|].
+  assert (Ha : In a (keys s)) by (apply Hl; now left).
+  destruct (in_keys_find _ _ Ha) as [z0 Hz].
+  destruct (insert_rescore k s a (sc_failure k) None z0 Hz Hf) as [_ [H1 [H2 H3]]].
+  rewrite IH.
+  - destruct (maddr_eqb b a) eqn:E; cbn [orb].
+    + apply maddr_eqb_spec in E. subst b.
+      destruct (existsb (maddr_eqb a) t); [reflexivity | exact H1].
+    + destruct (existsb (maddr_eqb b) t); [reflexivity|].
+      apply H3. intros ->. rewrite maddr_eqb_refl in E. discriminate.
+  - rewrite H2. exact Hnd.
+  - intros x Hx. rewrite H2. apply Hl. now right.
+Qed.
+
+Lemma fail_all_keys k s l :
+  (forall a, In a l -> In a (keys s)) -> keys (fail_all k s l) = keys s.
+Proof.
+  revert s. induction l as [|a t IH]; intros s Hl; cbn [fail_all]; [reflexivity|].
+  assert (Ha : In a (keys s)) by (apply Hl; now left).
+  pose proof (insert_known_keys k s a (sc_failure k) None Ha) as Hk.
+  rewrite IH; [exact Hk|]. intros x Hx. rewrite Hk. apply Hl. now right.
+Qed.
+
+(* every attempt timed out: exactly the tried addresses get the failure score *)
+Lemma dial_all_fail_find k s peer tcp ws b :
+  NoDup (keys s) -> (forall a, In a (tcp ++ ws) -> In a (keys s)) -> sc_failure k <> 0 ->
+  find b (dial_outcome k s peer 0 tcp ws) =
+    if existsb (maddr_eqb b) (tcp ++ ws) then Some (sc_failure k) else find b s.
+Proof.
+  intros Hnd Hl Hf. cbn [dial_outcome].
+  assert (Ht : forall a, In a tcp -> In a (keys s)) by (intros a Ha; apply Hl, in_or_app; now left).
+  assert (Hw : forall a, In a ws -> In a (keys s)) by (intros a Ha; apply Hl, in_or_app; now right).
+  pose proof (fail_all_keys k s tcp Ht) as Hk.
+  rewrite fail_all_find; [|rewrite Hk; exact Hnd|intros a Ha; rewrite Hk; exact (Hw _ Ha)|exact Hf].
+  rewrite fail_all_find by assumption.
+  rewrite existsb_app.
+  destruct (existsb (maddr_eqb b) tcp); destruct (existsb (maddr_eqb b) ws); reflexivity.
+Qed.
+
+(* attempt j succeeded after the earlier ones on that transport timed out: the address used gets
+   the established score, the earlier ones the failure score, nothing else changes *)
+Lemma succeed_at_find k s peer l j a b :
+  NoDup (keys s) -> (forall x, In x l -> In x (keys s)) ->
+  nth_error l j = Some a -> names peer a = true ->
+  sc_failure k <> 0 -> sc_established k <> 0 ->
+  find b (succeed_at k s peer l j) =
+    if maddr_eqb b a then Some (sc_established k)
+    else if existsb (maddr_eqb b) (firstn j l) then Some (sc_failure k) else find b s.
+Proof.
+  intros Hnd Hl Hj Hn Hf He. unfold succeed_at. rewrite Hj.
+  assert (Hw : with_peer peer a = a).
+  { unfold names in Hn. destruct (last a (Other 0)) eqn:El; try discriminate.
+    exact (with_peer_last _ _ _ El). }
+  rewrite Hw.
+  assert (Hfl : forall x, In x (firstn j l) -> In x (keys s)).
+  { intros x Hx. apply Hl. rewrite <- (firstn_skipn j l). apply in_or_app. now left. }
+  set (s1 := fail_all k s (firstn j l)).
+  assert (Hk1 : keys s1 = keys s) by (apply fail_all_keys; exact Hfl).
+  assert (Ha1 : In a (keys s1)) by (rewrite Hk1; apply Hl; exact (nth_error_In _ _ Hj)).
+  destruct (in_keys_find _ _ Ha1) as [z1 Hz1].
+  destruct (insert_rescore k s1 a (sc_established k) None z1 Hz1 He) as [_ [H1 [H2 H3]]].
+  set (s2 := fst (insert k s1 a (sc_established k) None)) in *.
+  destruct (insert_rescore k s2 a (sc_established k) None _ H1 He) as [_ [H4 [H5 H6]]].
+  destruct (maddr_eqb b a) eqn:E.
+  - apply maddr_eqb_spec in E. subst b. exact H4.
+  - assert (Hba : b <> a) by (intros ->; rewrite maddr_eqb_refl in E; discriminate).
+    rewrite (H6 _ Hba), (H3 _ Hba). unfold s1. apply fail_all_find; assumption.
+Qed.
+
+Lemma free_capacity_spec c st n limit :
+  free_capacity c st n = Some limit ->
+  match max_out c with
+  | Some m => (held st < m)%nat /\ limit = (m - held st)%nat
+  | None => limit = n
+  end.
+Proof.
+  unfold free_capacity. destruct (max_out c) as [m|].
+  - destruct (m <=? held st)%nat eqn:E; [discriminate|]. intros [= <-]. split; [lia | reflexivity].
+  - intros [= <-]. reflexivity.
+Qed.
+
+(* dial(peer): the lists handed to the transports' open() are, merged, a valid
+   addresses(limit) selection for limit = free outbound capacity; every address goes to the
+   installed transport it is routed to; the outcome is then recorded by dial_outcome *)
+Lemma step_dial_tried c k st peer outcome tcp ws t w st' :
+  step c k st (ODial peer outcome tcp ws) = (st', RDial (DTried t w)) ->
+  let s := get_or_empty peer (bk st) in
+  exists limit,
+    free_capacity c st (length s) = Some limit /\
+    peer <> local_peer c /\
+    t = with_scores s tcp /\ w = with_scores s ws /\
+    addresses_ok limit s (merge_desc t w) = true /\
+    Permutation (merge_desc t w) (t ++ w) /\
+    Forall (fun a => In a (keys s) /\ names peer a = true /\ route c a = TTcp /\ enabled c TTcp = true) tcp /\
+    Forall (fun a => In a (keys s) /\ names peer a = true /\ route c a = TWs /\ enabled c TWs = true) ws /\
+    st' = set_bk st (put peer (dial_outcome k s peer outcome tcp ws) (bk st)).
+Proof.
+  cbn [step]. set (s := get_or_empty peer (bk st)). cbn zeta.
+  destruct (existsb (fun x => negb (enabled c (route c (fst x)) && names peer (fst x))) s) eqn:Hg;
+    [discriminate|].
+  destruct (free_capacity c st (length s)) as [limit|] eqn:Hc; [|discriminate].
+  destruct (N.eqb peer (local_peer c)) eqn:Hp; [discriminate|].
+  destruct s as [|x0 s0] eqn:Hs; [discriminate|]. rewrite <- Hs in *.
+  destruct (forallb (fun a => mem a s) (tcp ++ ws)) eqn:Hm; cbn [andb]; [|discriminate].
+  destruct (forallb (fun a => match route c a with TTcp => true | _ => false end) tcp) eqn:Hrt;
+    cbn [andb]; [|discriminate].
+  destruct (forallb (fun a => match route c a with TWs => true | _ => false end) ws) eqn:Hrw;
+    cbn [andb]; [|discriminate].
+  destruct (addresses_ok limit s (merge_desc (with_scores s tcp) (with_scores s ws))) eqn:Hok;
+    [|discriminate].
+  intros [= <- <- <-]. exists limit.
+  assert (Hfacts : forall a, In a (tcp ++ ws) ->
+            In a (keys s) /\ names peer a = true /\ enabled c (route c a) = true).
+  { intros a Ha. rewrite forallb_forall in Hm. specialize (Hm _ Ha). apply mem_in in Hm.
+    split; [exact Hm|]. apply in_map_iff in Hm. destruct Hm as [x [Hx1 Hx2]].
+    destruct (enabled c (route c a) && names peer a) eqn:E.
+    - apply andb_true_iff in E. destruct E. split; assumption.
+    - assert (existsb (fun x => negb (enabled c (route c (fst x)) && names peer (fst x))) s = true).
+      { apply existsb_exists. exists x. split; [exact Hx2|]. rewrite Hx1, E. reflexivity. }
+      congruence. }
+  repeat split; try reflexivity.
+  - apply N.eqb_neq. exact Hp.
+  - exact Hok.
+  - apply merge_desc_perm.
+  - apply Forall_forall. intros a Ha. rewrite forallb_forall in Hrt. specialize (Hrt _ Ha).
+    destruct (Hfacts a (in_or_app _ _ _ (or_introl Ha))) as [H1 [H2 H3]].
+    destruct (route c a) eqn:Hr; try discriminate. repeat split; assumption.
+  - apply Forall_forall. intros a Ha. rewrite forallb_forall in Hrw. specialize (Hrw _ Ha).
+    destruct (Hfacts a (in_or_app _ _ _ (or_intror Ha))) as [H1 [H2 H3]].
+    destruct (route c a) eqn:Hr; try discriminate. repeat split; assumption.
 Qed.
